@@ -499,11 +499,11 @@ impl<'a> Env<'a> {
         let module = parent_of(path);
         let name = last_of(path);
         let Some(m) = self.modules.get(module) else { return vec![] };
-        // the last impl block for a name wins (they are keyed by path)
+        // every impl block of the type contributes, in source order
         let mut out: Vec<&'a Function> = vec![];
         for b in &m.impls {
             if b.name.as_str() == name {
-                out = b.functions.iter().collect();
+                out.extend(b.functions.iter());
             }
         }
         out
